@@ -16,7 +16,7 @@ from . import c10
 ID = "C12"
 LEVEL = "model_checking"
 RULE = ("every non-degenerate (exact) RLC + ideal-source circuit of the listed levels (<= 2 reactive elements quick, <= 3 "
-        "thorough; <= 2 sources) x orientation patterns x id schemes, simulated by the real TransientSolution for every "
+        "thorough; <= 2 sources; plus ladders with up to 4 (thorough 6) states) x orientation patterns x id schemes, simulated by the real TransientSolution for every "
         "combination of input shapes {zero, one-sample step, ramp, triangle, constant} over its sources (all combinations at "
         "the small levels, singles plus four mixed pairs at the larger) on a uniform grid h = tau_min/20 (and /50 thorough); "
         "every node and element is queried at every sample; plus one settling run with constant inputs and one with a "
@@ -55,12 +55,27 @@ def shards(tier):
         for ti in range(len(topos)):
             for ch in sp.chunks(range(len(allk)), 2 if om == "allorient" else 4):
                 out.append(("RLC(%d,%d)|%s|%s|inputs:%s" % (n, b, om, im, cm_), (n, b, mr, ti, ch[0], ch[-1] + 1, om, im, cm_, tier)))
+    for li in range(len(dyn.LADDERS)):
+        for nsec in range(1, (3 if tier == "thorough" else 2) + 1):
+            out.append(("ladders (up to %d states)" % (6 if tier == "thorough" else 4), ("lad", li, nsec, tier)))
     return out
 
 
 def run_shard(desc):
-    n, b, mr, ti, k0, k1, om, im, cm_, tier = desc
     res = new_result()
+    if desc[0] == "lad":
+        src, ser, shu = dyn.LADDERS[desc[1]]
+        for scheme in ("asc", "desc", "mix"):
+            for flip in (False, True):
+                d = dyn.ladder(src, ser, shu, desc[2], scheme, flip, desc[2] % 2)
+                res["evals"] += 1
+                ok, why = rd.non_degenerate(d)
+                if not ok:
+                    bump(res["skipped"], why)
+                    continue
+                judge_circuit(d, "some", desc[3], res, ladder=True)
+        return res
+    n, b, mr, ti, k0, k1, om, im, cm_, tier = desc
     topo = sp.topologies(n, b)[ti]
     allk = kinds_for(b, mr)
     idl = c10.id_lists(b, im)
@@ -80,7 +95,7 @@ def run_shard(desc):
 
 def replay(case):
     res = new_result()
-    judge_circuit(case["circuit"], "all", "quick", res, only=case.get("inputs"), only_div=case.get("div"))
+    judge_circuit(case["circuit"], "all", "quick", res, only=case.get("inputs"), only_div=case.get("div"), ladder=len(case["circuit"]["components"]) > 6)
     return res["violations"]
 
 
@@ -131,7 +146,7 @@ def simulate_exact(prop, U):
     return X
 
 
-def judge_circuit(d, combos_mode, tier, res, only=None, only_div=None):
+def judge_circuit(d, combos_mode, tier, res, only=None, only_div=None, ladder=False):
     from CircuitCalculator.Circuit.solution import TransientSolution, DCSolution
     caps, inds = rd.reactive(d)
     srcs = rd.sources(d)
@@ -141,7 +156,7 @@ def judge_circuit(d, combos_mode, tier, res, only=None, only_div=None):
     case0 = {"circuit": d}
     # ---- identify the model with the exact transfer function (same oracle as C10)
     tmp = new_result()
-    c10.judge(d, tmp)
+    c10.judge(d, tmp, wpal=dyn.W_PALETTE_LONG if ladder else None)
     if tmp["violations"]:
         v = tmp["violations"][0]
         add_violation(res, "exact_pwl_response", case0, v["expected"], v["observed"], "model is not a realisation of the circuit (%s): %s" % (v["subcheck"], v["msg"]), kind="model_wrong")
